@@ -18,6 +18,7 @@ type Clause struct {
 	Expr  *Node
 	Line  int
 	File  string
+	AfterLoop int  // ensures only: >0 means "checked only at returns dominated by the header of loop AfterLoop-1"
 	Props []string // restricts the properties this clause serves (empty = the function's)
 	// Group: assumptions made from this clause (assumed invariant, callee postcondition) are visible only to
 	// obligations generated from clauses of the same group; ungrouped assumptions are visible to all.
@@ -287,10 +288,18 @@ func (cs *Contracts) loadFile(path, pkg string) error {
 			}
 			curF.Requires = append(curF.Requires, cl)
 		case "ensures":
+			// ensures label [afterloop N] : expr
+			after := 0
+			if m := regexp.MustCompile(`^(\w+)\s+afterloop\s+(\d+)\s*:\s*(.*)$`).FindStringSubmatch(rest); m != nil {
+				n, _ := strconv.Atoi(m[2])
+				after = n + 1
+				rest = m[1] + ": " + m[3]
+			}
 			cl, err := mkClause(rest, path, l.line)
 			if err != nil {
 				return err
 			}
+			cl.AfterLoop = after
 			curF.Ensures = append(curF.Ensures, cl)
 		case "given":
 			cl, err := mkClause(rest, path, l.line)
